@@ -9,11 +9,11 @@ MANIFEST = {
     "text": "Theorems (for all headers, unbounded): contradiction is symmetric, equals the LIP-0014 'neither is a legitimate successor' "
             "characterisation, never holds across generators, flags double forging / lower-maxHeightPrevoted chain / violated "
             "maxHeightGenerated, never flags a protocol-following generator's history; fork-choice classification equals the "
-            "declarative LIP-0014 case list and IsDifferentChain is the strict lexicographic order on (maxHeightPrevoted,height). "
+            "declarative LIP-0014 case list and IsDifferentChain is the strict lexicographic order on (maxHeightPrevoted,height); on every chain of blocks that passed the BFT rules a next header contradicting ANY windowed header of its generator is flagged (C07_window_complete). "
             "The model is tied to the Go code by running both on every header pair over a small range exhaustively plus random "
             "uint32 pairs and fork-choice observations; every implementation answer is also checked against the declarative oracle.",
     "note": "Trusted: Coq kernel + vm_compute, the hand-written model's fidelity as sampled by the correspondence, Go harness and "
-            "Python glue. The 'contradicting header inside the window is always flagged' clause is proved with the vote model (C02).",
+            "Python glue. C07_window_complete (a contradicting header inside the window is always flagged) is proved on the liskbft vote model of C02, whose tie to the code is the C02 correspondence (IsHeaderContradictingChain is compared there after every block).",
 }
 IMPORTS = "From LE Require Import BFT.Contradiction BFT.ForkChoice Corr.C07."
 
